@@ -256,8 +256,10 @@ def main():
             "wall_s": round(wall, 2),
             "violations": len(m["violations"]),
         }
-        os.makedirs(os.path.join(ROOT, "evidence"), exist_ok=True)
-        with open(os.path.join(ROOT, "evidence", f"{args.pid}.json"), "w") as f:
+        # runs against a scratch tree (mutation campaign, PFV_REPO) must not overwrite the evidence of the real tree
+        evdir = os.path.join(ROOT, "evidence") if not os.environ.get("PFV_REPO") else os.path.join(WORK, "evidence-scratch")
+        os.makedirs(evdir, exist_ok=True)
+        with open(os.path.join(evdir, f"{args.pid}.json"), "w") as f:
             json.dump(ev, f, indent=1, sort_keys=True)
 
     if rc == 0 and inconclusive:
